@@ -9,6 +9,7 @@ function entry, so the interpreter state is plain mutable Python).
 Output: one PathSummary per path: the chosen abstract inputs, the ordered effect events, and the
 result value (or panic / cut).
 """
+import re
 import itertools
 
 from . import facts as F
@@ -1008,6 +1009,9 @@ class Interp:
             v = self.val_force(v)
             if isinstance(v, RefV):
                 return v.cell
+            if isinstance(v, SymV) and v.name.startswith(("str:", "const:")):
+                # `&*"literal"` / `&*CONST_STR` (the message of an expect / assert): an opaque constant
+                return Cell(SymV("*" + v.name, None), "*" + v.name)
             raise Unrecognised("deref of %r" % (v,))
         if k == "Field":
             base = self.place(n["base"], fr) if self.is_place(n["base"]) else Cell(self.eval(n["base"], fr), "tmp")
@@ -1243,6 +1247,10 @@ class Interp:
                 return IntV(a - b)
         if isinstance(l, BoolV) and isinstance(r, BoolV) and op in ("Eq", "Ne", "BitAnd", "BitOr", "BitXor"):
             return BoolV({"Eq": l.b == r.b, "Ne": l.b != r.b, "BitAnd": l.b and r.b, "BitOr": l.b or r.b, "BitXor": l.b != r.b}[op])
+        if op in ("Eq", "Ne"):
+            ax = self.index_axiom(l, r)
+            if ax is not None:
+                return BoolV(ax if op == "Eq" else not ax)
         # prefix-derived scalars: prefix_len(a) == prefix_len(b), mask(a) < mask(b) ...
         pr = self.hooks.get("binop")
         if pr is not None:
@@ -1269,6 +1277,35 @@ class Interp:
         if isinstance(l, (SymV, IntV, LinV)) and isinstance(r, (SymV, IntV, LinV)):
             return SymV("(%r %s %r)" % (l, op, r), n["ty"] if n else None)
         raise Unrecognised("binary %s on %r, %r" % (op, l, r))
+
+    @staticmethod
+    def _slot_role(v):
+        """'child' / 'fresh' / None for a value that names an arena slot by its role"""
+        if isinstance(v, (SymV, UnkV)):
+            nm = v.name.lstrip("?")
+            if nm.startswith(("pop(", "len(")) and "#" in nm:
+                return "fresh", nm
+            if re.match(r"^[A-Za-z0-9_*.()\[\]]+\.(l|r)$", nm):
+                return "child", nm
+        return None, None
+
+    def index_axiom(self, l, r):
+        """equality of two slot indices where the well-formedness invariants decide it (assumed for the pre-state, shown to be
+        preserved by C15 / C16): a child or a fresh slot is never the root (slot 0); a node differs from its descendants; a
+        slot just taken from the free list / appended to the arena differs from every other named slot.  None = not decided."""
+        kl, nl = self._slot_role(l)
+        kr, nr = self._slot_role(r)
+        for (k, n_, o) in ((kl, nl, r), (kr, nr, l)):
+            if k and isinstance(o, IntV) and o.n == 0:
+                return False
+        if kl and kr:
+            if nl == nr:
+                return True
+            if "fresh" in (kl, kr):
+                return False
+            if nl.startswith(nr + ".") or nr.startswith(nl + "."):
+                return False
+        return None
 
     def prefix_cmp(self, op, l, r):
         if isinstance(l, SymV) and isinstance(r, SymV):
